@@ -11,7 +11,10 @@
                      s = a -> b      -> And [N(a); N(mk_not b)]
                      s = a <-> b     -> Or(And(N a, N(mk_not b)), And(N b, N(mk_not a)))
                      s = Q vs. b     -> Q' vs. N(mk_not b)
-                     otherwise       -> mk_not (N s)      (ITE, function, constant, relation)
+                     s = Ite(i,t,e)  -> And(Or(N(mk_not i), N(mk_not t)), Or(N i, N(mk_not e)))
+                                        (since /repo commit 777db40; before it this case fell into
+                                         "otherwise" and the result kept a negated conjunction)
+                     otherwise       -> mk_not (N s)      (function, constant, relation)
      N(a -> b)       -> Or [N(mk_not a); N b]
      N(a <-> b)      -> And(Or(N(mk_not a), N b), Or(N(mk_not b), N a))
      N(And l), N(Or l), N(Q vs. b)   -> rebuilt from the N of the children
@@ -21,9 +24,6 @@
    N(mk_not x) is N(u) when x = Not u and N(Not x) otherwise, and N(Not(Not u)) = N(u); hence
    N(mk_not x) = N(Not x) for every x and the whole function is the structural recursion
    [nnf_p pos t] below with  nnf_p true t = N(t)  and  nnf_p false t = N(Not t) = N(mk_not t).
-
-   Quirk kept: in the "otherwise" case the argument of Not is itself normalised and the Not is
-   put back on top, so the negation of a Boolean ITE is Not(And(Or ..)(Or ..)).
 
    Domain: the assertion in _get_children fails (AssertionError) on any node reached in a Boolean
    position that is not a connective, quantifier, ITE, symbol, function application, Boolean
@@ -48,8 +48,8 @@ Fixpoint nnf_p (pos : bool) (t : term) {struct t} : term :=
   | T (OForall vs) [b] => if pos then mk_forall vs (nnf_p true b) else mk_exists vs (nnf_p false b)
   | T (OExists vs) [b] => if pos then mk_exists vs (nnf_p true b) else mk_forall vs (nnf_p false b)
   | T OIte [i; th; el] =>
-      let r := T OAnd [T OOr [nnf_p false i; nnf_p true th]; T OOr [nnf_p true i; nnf_p true el]] in
-      if pos then r else mk_not r
+      if pos then T OAnd [T OOr [nnf_p false i; nnf_p true th]; T OOr [nnf_p true i; nnf_p true el]]
+      else T OAnd [T OOr [nnf_p false i; nnf_p false th]; T OOr [nnf_p true i; nnf_p false el]]
   | T (OSymbol _ _) _ => if pos then t else T ONot [t]
   | _ => if pos then t else mk_not t
   end.
@@ -69,17 +69,4 @@ Fixpoint nnf_shape (t : term) : bool :=
   | T (OForall _) [b] | T (OExists _) [b] => nnf_shape b
   | T ONot [T o _] => is_atom_op o
   | T o _ => is_atom_op o
-  end.
-
-(* inputs without a negated Boolean ITE in the skeleton (the side condition of nnf_shape_partial) *)
-Fixpoint no_neg_ite (pos : bool) (t : term) {struct t} : bool :=
-  match t with
-  | T ONot [s] => no_neg_ite (negb pos) s
-  | T OAnd l | T OOr l => forallb (no_neg_ite pos) l
-  | T OImplies [a; b] => no_neg_ite (negb pos) a && no_neg_ite pos b
-  | T OIff [a; b] => no_neg_ite true a && no_neg_ite false a && no_neg_ite true b && no_neg_ite false b
-  | T (OForall _) [b] | T (OExists _) [b] => no_neg_ite pos b
-  | T OIte [i; th; el] =>
-      pos && no_neg_ite true i && no_neg_ite false i && no_neg_ite true th && no_neg_ite true el
-  | _ => true
   end.
